@@ -55,6 +55,47 @@ func Lockstep(op int, mode int) {
 	vp.Reach("end")
 }
 
+// Lockstep2 runs two consecutive Steps of both interpreters (op1, then op2 at wherever op1 left
+// the program counter) from one common arbitrary native-mode state and compares after the second:
+// state that one interpreter keeps between steps outside the fields of cpuenv.Pre shows here.
+func Lockstep2(op1 int, op2 int, mode int) {
+	m, x := uint8(mode>>1&1), uint8(mode&1)
+	pre := cpuenv.ArbitraryPre(m, x, 0)
+	pre.Interrupt = pre.Interrupt & 1
+	pre.Stopped = false
+	opAddr := uint32(pre.RK)<<16 | uint32(pre.PC)
+	vp.FillBytes("mem", cpuenv.MainMem)
+	vp.FillBytes("mem", cpuenv.AltMem)
+	cpuenv.MainMem[opAddr] = uint8(op1)
+	cpuenv.AltMem[opAddr] = uint8(op1)
+	a, b := cpuenv.Main, cpuenv.Alt
+	pre.ToMain(a)
+	pre.ToAlt(b)
+	var c1, c2 int
+	var s1, s2 bool
+	p1 := vp.Try(func() { c1, s1 = a.Step() })
+	p2 := vp.Try(func() { c2, s2 = b.Step() })
+	if p1 || p2 {
+		vp.Reach("first-step-failed")
+		return
+	}
+	pcA := uint32(a.RK)<<16 | uint32(a.PC)
+	pcB := uint32(b.RK)<<16 | uint32(b.PC)
+	vp.Assume(pcA == pcB && !s1 && !s2)
+	cpuenv.MainMem[pcA] = uint8(op2)
+	cpuenv.AltMem[pcB] = uint8(op2)
+	p1 = vp.Try(func() { c1, s1 = a.Step() })
+	p2 = vp.Try(func() { c2, s2 = b.Step() })
+	vp.Assert("same-failure-status", p1 == p2)
+	if p1 || p2 {
+		vp.Reach("failed")
+		return
+	}
+	compare(a, b, c1, c2, s1, s2)
+	vp.Assert("memory", vp.BytesEqual(cpuenv.MainMem, cpuenv.AltMem))
+	vp.Reach("end")
+}
+
 func compare(a *cpu65c816.CPU, b *cpualt.CPU, c1, c2 int, s1, s2 bool) {
 	vp.Assert("returned-cycles", c1 == c2)
 	vp.Assert("returned-stopped", s1 == s2)
